@@ -156,6 +156,15 @@ def replay_roi(arg):
         mism.append(("roi-center-distance", "ROI centre distance %r, specification sqrt(%r)" % (cd, out["cd"]), rep))
     if abs(io - out["iou2"][0] / out["iou2"][1]) > 1e-9 or abs(io - io_s) > 1e-12:
         mism.append(("roi-iou", "ROI IoU %r, specification %s" % (io, out["iou2"]), rep))
+    # the same ROIs on 2-D objects that also carry the optional 3-D position: the 2-D scores are about the ROIs
+    try:
+        for o_, p_ in ((A, (12.0, 3.0, 0.5)), (B, (40.0, -7.0, 1.0))):
+            o_.set_position(p_) if hasattr(o_, "set_position") else setattr(o_.state, "position", p_)
+        cd_p, io_p = CenterDistanceMatching(A, B).value, IOU2dMatching(A, B).value
+        if abs(cd_p - cd) > 1e-12 or abs(io_p - io) > 1e-12:
+            mism.append(("roi-scores-depend-on-3d-position", "with a 3-D position attached: centre distance %r (was %r), IoU %r (was %r)" % (cd_p, cd, io_p, io), rep))
+    except Exception as ex:
+        mism.append(("raised", "2-D objects with a position raised %r" % (ex,), rep))
     return 1, mism
 
 
